@@ -135,7 +135,7 @@ Definition run_hw (cmd : text) (args : list bytes) : option text :=
     let t := text_arg (arg 1 args) in
     match utf8_encode t with
     | Some b => Some (render (JObj [(L "hex", hexj (b ++ repeat 0 (N.to_nat (num_arg (arg 2 args)))));
-                                    (L "expected", ffdc_render t)]))
+                                    (L "expected", match ffdc_render t with HwOk j => j | _ => JStr (L "@raise") end)]))
     | None => Some (render (JStr (L "bad choice")))
     end
   else if is_cmd cmd (L "hw_data_back") then
